@@ -16,7 +16,7 @@ VERUS_UNITS = {
     'iter_cw': 'charwise/iter.rs next() of FindIterator, FindOverlappingIterator, FindOverlappingNoSuffixIterator against spec streams over the char-wise double array; laziness',
     'lm_cw': 'charwise/iter.rs LestmostFindIterator::next (str-based) and charwise.rs leftmost_find_iter: refinement of the char-level leftmost spec stream cwl_stream over the double array; the str::get_unchecked(pos..) safety condition (pos is a char boundary) is a proved precondition of the R24 wrapper at every call; every reported end offset is a char boundary inside the haystack; pos moves forward; index safety of states/outputs; termination; documented match-kind panic. Trusted: three axioms about UTF-8 boundaries of a str (ghost_str.rs)',
     'ctor_bw': 'bytewise.rs all seven find_*/leftmost constructors, U8SliceIterator::{new,next} (next checked against vstd prophetic iterator laws with remaining() == unread slice bytes), MatchKind::{is_standard,is_leftmost}: documented match-kind panics, iterator invariants established from the automaton invariant, slice entry == iterator entry',
-    'ctor_cw': 'charwise.rs find_*_iter_from_iter constructors + CharWithEndOffsetIterator::new: documented match-kind panics, establish the iterator invariants from the automaton invariant',
+    'ctor_cw': 'charwise.rs find_*_iter_from_iter constructors and the three str entry points (find_iter, find_overlapping_iter, find_overlapping_no_suffix_iter) + CharWithEndOffsetIterator::new + StrIterator::{new,next} (next checked against vstd prophetic iterator laws with remaining() == unread bytes of the str): documented match-kind panics, the iterator invariants are established from the automaton invariant, the unsafe decoder constructor is only given well-formed UTF-8 (trusted: a str is valid UTF-8), str entry == iterator entry',
     'search_bw': 'bytewise.rs child_index_unchecked / next_state_id_unchecked / next_state_id_leftmost_unchecked, State accessors, intpack getters',
     'iter_bw': 'bytewise/iter.rs next() of the four iterators against spec streams over the double array; laziness; index safety',
 }
@@ -75,7 +75,7 @@ PROPS = {
                 chain='the search contracts depend on the array only through encodes/wf, and build_double_array establishes encodes for EVERY num_free_blocks >= 1 (P: build_bw, build_cw incl. the block-dropping path of extend_array and the helper ring, P: helper); equality of results across values then rests on AC correctness (B)',
                 assumed=[NFA_ASSUMED, DA_ASSUMED]),
     'C12': dict(verus=['iter_bw', 'ctor_bw', 'utf8', 'iter_cw', 'ctor_cw'], kani=['utf8_decoder_two_chars'], bounded=True,
-                chain='laziness postconditions of the three standard iterators, both variants (P): m.end == bytes pulled, source drained on None, pulls only via Enumerate::next; decoder pulls exactly the bytes of one character (P+K)', assumed=['byte-wise: find_iter(h) is find_iter_from_iter over U8SliceIterator, whose remaining() == h (P: ctor_bw); char-wise str entry points over StrIterator: B', 'caller-supplied iterators obey vstd prophetic iterator laws (finite, deterministic)']),
+                chain='laziness postconditions of the three standard iterators, both variants (P): m.end == bytes pulled, source drained on None, pulls only via Enumerate::next; decoder pulls exactly the bytes of one character (P+K)', assumed=['byte-wise: find_iter(h) is find_iter_from_iter over U8SliceIterator, whose remaining() == h (P: ctor_bw); char-wise: the str entry points build the same iterators over StrIterator, whose remaining() == the bytes of the str (P: ctor_cw)', 'caller-supplied iterators obey vstd prophetic iterator laws (finite, deterministic)']),
     'C13': dict(verus=['search_bw', 'iter_bw', 'build_bw', 'link_bw', 'wrap_bw', 'search_cw', 'utf8', 'iter_cw', 'build_cw', 'link_cw', 'ctor_bw', 'ctor_cw', 'lm_cw'], kani=[], bounded=True,
                 chain='decreases rank in the transition loops, decreases |rest| in scanning loops (P); the ranking exists: NFA depth through idmap (P: link_bw, link_cw) given fail links point to shallower states (nfa_links, B); 2n bound: B',
                 assumed=[NFA_ASSUMED, DA_ASSUMED]),
